@@ -300,7 +300,7 @@ func c01WrongForms(e *mocrelay.Event) map[string][]byte {
 
 func TestVerif_C01(t *testing.T) {
 	rep := vk.NewReport(t, "C01", "exploration")
-	rep.Rule = "freshly signed events (32 fixed + seeded keys, every kind class, boundary created_at, 0-8 tags of 0-5 elements, hostile content and tag values, a complete sweep of U+0000..U+FFFF minus surrogates and 4096 astral samples), 1300/4200 distinct authors in one process (re-checked afterwards, with cross-signed forgeries), each event with sampled tamperings from a 27-entry catalogue, ids/signatures with a 00 byte at either end cut off or padded and wrong-canonicalisation forgeries; oracle = reference canonical form + SHA-256 + independent BIP-340 verifier; non-trivial = the event contains a character some JSON encoder escapes or any non-ASCII character, or is a tampering/forgery; distinct = distinct (event id, tamper class)"
+	rep.Rule = "freshly signed events (32 fixed + seeded keys, every kind class, boundary created_at, 0-8 tags of 0-5 elements, hostile content and tag values, a complete sweep of U+0000..U+FFFF minus surrogates and 4096 astral samples), 1300/4200 distinct authors in one process (re-checked afterwards, with cross-signed forgeries), each event with sampled tamperings from a 27-entry catalogue, ids/signatures with a 00 byte at either end cut off or padded and wrong-canonicalisation forgeries; oracle = reference canonical form + SHA-256 + independent BIP-340 verifier; added later: tag names too are hostile now and then (one-byte names that need escaping, the empty name); altered copies include one flipped bit of one character of id, pubkey or sig (results that merely respell a hex digit in the other case are left out); non-trivial = the event contains a character some JSON encoder escapes or any non-ASCII character, or is a tampering/forgery; distinct = distinct (event id, tamper class)"
 	rep.Assume("the independent BIP-340 verifier passed the official test vectors at start-up")
 	defer rep.Finish()
 
